@@ -567,6 +567,18 @@ func init() {
 }
 
 func c09Run(c *core.Ctx, i int) {
+	tailStart := c09Creates*c09Updates + 1500
+	if c.Tier == "thorough" {
+		tailStart = c09Creates*c09Updates + c09Creates*c09Creates*c09Updates + c09Creates*c09Updates*c09Updates
+	}
+	if i >= tailStart && i%8 == 3 { // concatenation with aliases alive (rebinding, not growth in place)
+		runTextFamily(c, "concat-aliases", concatAliasSource(c.Rng), nil)
+		return
+	}
+	if i >= tailStart && i%8 == 5 {
+		runTextFamily(c, "unary-on-stored-values", unaryOnCallSource(c.Rng), nil)
+		return
+	}
 	a := &aliasProg{r: c.Rng, funcs: map[string]bool{}}
 	a.prelude()
 	pairs := c09Creates * c09Updates
